@@ -14,7 +14,7 @@ every run of the check):
   every plain-English document) the rule returns — no `Span::new`, `get_span_content`, slice, `unwrap` or
   subtraction panic — and every lint has `start ≤ stop ≤ src.length` (`RunsWF`). The rules built around a
   pattern tree need no token order (`…_spans_wf_any_order`: well-formed tokens inside the text, zero-width ones
-  included — what the Markdown front-end delivers); the three rules that do index arithmetic over the whole
+  included — what the Markdown front-end delivers); the four rules that do index arithmetic over the whole
   document (CommaFixes, MergeWords, AdjectiveOfA, InflectedVerbAfterTo: `Span::new(first.start, last.end)`) need the text order, with
   a kernel-checked witness that they panic without it.
 * OxfordComma's `matched_toks[conj_index - 2]` is safe under `ConjOK`: every word that `WordSet[and, or, nor]`
@@ -53,36 +53,158 @@ theorem suggestions_local (r : PieceRule) (src : List Char) (toks : List Tok) (h
   cases e'
   exact apply_spec (toSuggestion sg) src l.span (hl l hlm).1 (hl l hlm).2
 
+/-- non-vacuity of `suggestions_local` (and of `SuggestionsLocal`, which alone says nothing of a run that panics: every
+`<rule>_suggestions_local` below carries the hypotheses of `<rule>_spans_wf`, which gives `.ok`): a run that returns the
+lint `0..1` / `I` on the tiling tokens of `i ate`; the theorem gives the splice `I ate` -/
+example : (toSuggestion (.replaceWith ['I'])).apply ⟨0, 1⟩ ['i', ' ', 'a', 't', 'e'] = .ok ['I', ' ', 'a', 't', 'e'] :=
+  suggestions_local (ruleCapitalizePersonalPronouns env0) ['i', ' ', 'a', 't', 'e'] [⟨⟨0, 1⟩, .word⟩, ⟨⟨1, 2⟩, .space 1⟩, ⟨⟨2, 5⟩, .word⟩]
+    ⟨[⟨⟨0, 1⟩, [.replaceWith ['I']], 22, 0⟩], by decide, by decide⟩ [⟨⟨0, 1⟩, [.replaceWith ['I']], 22, 0⟩] (by decide)
+    ⟨⟨0, 1⟩, [.replaceWith ['I']], 22, 0⟩ (List.mem_singleton.mpr rfl) (.replaceWith ['I']) (List.mem_singleton.mpr rfl)
+
 /-! ## the per-token rules -/
 
 theorem spelledNumbers_spans_wf (env : Env) (src : List Char) (toks : List Tok) (h : Tiles toks 0 src.length) :
     RunsWF (ruleSpelledNumbers env) src toks :=
   perTok_ok _ _ src toks (fun t ht => spelledNumbers_ok env _ src t ((ord_of_tiles toks _ h).2 t ht))
+/-- non-vacuity of `spelledNumbers_spans_wf`: the tokens of `i ate 9.` tile the text and the rule fires -/
+example : Tiles [⟨⟨0, 1⟩, .word⟩, ⟨⟨1, 2⟩, .space 1⟩, ⟨⟨2, 5⟩, .word⟩, ⟨⟨5, 6⟩, .space 1⟩, ⟨⟨6, 7⟩, .number 10 none⟩, ⟨⟨7, 8⟩, .punct .Period⟩] 0 (['i', ' ', 'a', 't', 'e', ' ', '9', '.']).length ∧
+    ruleSpelledNumbers ({ env0 with numVal := fun _ => .int 9 }) ['i', ' ', 'a', 't', 'e', ' ', '9', '.']
+      [⟨⟨0, 1⟩, .word⟩, ⟨⟨1, 2⟩, .space 1⟩, ⟨⟨2, 5⟩, .word⟩, ⟨⟨5, 6⟩, .space 1⟩, ⟨⟨6, 7⟩, .number 10 none⟩, ⟨⟨7, 8⟩, .punct .Period⟩] =
+    .ok [⟨⟨6, 7⟩, [.replaceWith ['n', 'i', 'n', 'e']], 21, 0⟩] := by decide
 
 theorem capitalizePersonalPronouns_spans_wf (env : Env) (src : List Char) (toks : List Tok) (h : Tiles toks 0 src.length) :
     RunsWF (ruleCapitalizePersonalPronouns env) src toks :=
   perTok_ok _ _ src toks (fun t ht => capitalizePronoun_ok src t ((ord_of_tiles toks _ h).2 t ht))
+/-- non-vacuity of `capitalizePersonalPronouns_spans_wf`: the tokens of `i ate 9.` tile the text and the rule fires -/
+example : Tiles [⟨⟨0, 1⟩, .word⟩, ⟨⟨1, 2⟩, .space 1⟩, ⟨⟨2, 5⟩, .word⟩, ⟨⟨5, 6⟩, .space 1⟩, ⟨⟨6, 7⟩, .number 10 none⟩, ⟨⟨7, 8⟩, .punct .Period⟩] 0 (['i', ' ', 'a', 't', 'e', ' ', '9', '.']).length ∧
+    ruleCapitalizePersonalPronouns (env0) ['i', ' ', 'a', 't', 'e', ' ', '9', '.']
+      [⟨⟨0, 1⟩, .word⟩, ⟨⟨1, 2⟩, .space 1⟩, ⟨⟨2, 5⟩, .word⟩, ⟨⟨5, 6⟩, .space 1⟩, ⟨⟨6, 7⟩, .number 10 none⟩, ⟨⟨7, 8⟩, .punct .Period⟩] =
+    .ok [⟨⟨0, 1⟩, [.replaceWith ['I']], 22, 0⟩] := by decide
 
 theorem avoidCurses_spans_wf (env : Env) (src : List Char) (toks : List Tok) (h : Tiles toks 0 src.length) :
     RunsWF (ruleAvoidCurses env) src toks :=
   perTok_ok _ _ src toks (fun t ht => avoidCurses_ok env _ src t ((ord_of_tiles toks _ h).2 t ht))
+/-- non-vacuity of `avoidCurses_spans_wf`: the tokens of `damn it` tile the text and the rule fires -/
+example : Tiles [⟨⟨0, 4⟩, .word⟩, ⟨⟨4, 5⟩, .space 1⟩, ⟨⟨5, 7⟩, .word⟩] 0 (['d', 'a', 'm', 'n', ' ', 'i', 't']).length ∧
+    ruleAvoidCurses ({ env0 with wordFlags := fun w => if w == ['d', 'a', 'm', 'n'] then 262144 else 0 }) ['d', 'a', 'm', 'n', ' ', 'i', 't']
+      [⟨⟨0, 4⟩, .word⟩, ⟨⟨4, 5⟩, .space 1⟩, ⟨⟨5, 7⟩, .word⟩] =
+    .ok [⟨⟨0, 4⟩, [], 23, 0⟩] := by decide
 
 theorem wordPressDotcom_spans_wf (env : Env) (src : List Char) (toks : List Tok) (h : Tiles toks 0 src.length) :
     RunsWF (ruleWordPressDotcom env) src toks :=
   perTok_ok _ _ src toks (fun t ht => wordPress_ok env src t ((ord_of_tiles toks _ h).2 t ht))
+/-- non-vacuity of `wordPressDotcom_spans_wf`: the tokens of `wordpress.com` tile the text and the rule fires -/
+example : Tiles [⟨⟨0, 13⟩, .hostname⟩] 0 (['w', 'o', 'r', 'd', 'p', 'r', 'e', 's', 's', '.', 'c', 'o', 'm']).length ∧
+    ruleWordPressDotcom (env0) ['w', 'o', 'r', 'd', 'p', 'r', 'e', 's', 's', '.', 'c', 'o', 'm']
+      [⟨⟨0, 13⟩, .hostname⟩] =
+    .ok [⟨⟨0, 13⟩, [.replaceWith ['W', 'o', 'r', 'd', 'P', 'r', 'e', 's', 's', '.', 'c', 'o', 'm']], 24, 0⟩] := by decide
 
 /-! ## LinkingVerbs -/
 
 theorem linkingVerbs_spans_wf (env : Env) (src : List Char) (toks : List Tok) (h : Tiles toks 0 src.length) :
     RunsWF (ruleLinkingVerbs env) src toks :=
   overPieces_ok _ _ _ src toks (ord_of_tiles toks _ h) (fun piece ho => linkingVerbs_ok env src piece ho)
+/-- non-vacuity of `linkingVerbs_spans_wf`: the tokens of `quick is` tile the text and the rule fires -/
+example : Tiles [⟨⟨0, 5⟩, .word⟩, ⟨⟨5, 6⟩, .space 1⟩, ⟨⟨6, 8⟩, .word⟩] 0 (['q', 'u', 'i', 'c', 'k', ' ', 'i', 's']).length ∧
+    ruleLinkingVerbs ({ env0 with wordFlags := fun w => if w == ['q', 'u', 'i', 'c', 'k'] then 32768 else if w == ['i', 's'] then 2048 else 0 }) ['q', 'u', 'i', 'c', 'k', ' ', 'i', 's']
+      [⟨⟨0, 5⟩, .word⟩, ⟨⟨5, 6⟩, .space 1⟩, ⟨⟨6, 8⟩, .word⟩] =
+    .ok [⟨⟨6, 8⟩, [], 25, 0⟩] := by decide
 
+/-! ## the per-token rules and LinkingVerbs need no token order either (stronger siblings of the `Tiles` versions) -/
+
+/-- **CapitalizePersonalPronouns on well-formed tokens inside the text, in any order, zero-width ones included** (the
+Markdown shape): the rule reads one token at a time -/
+theorem capitalizePersonalPronouns_spans_wf_any_order (env : Env) (src : List Char) (toks : List Tok) (h : InText src toks) :
+    RunsWF (ruleCapitalizePersonalPronouns env) src toks :=
+  perTok_ok _ _ src toks (fun t ht => by
+    have hin := h t ht
+    simp only [capitalizePronounTok]
+    split
+    · exact ⟨[], rfl, by simp⟩
+    · obtain ⟨cs, e⟩ := getContent_ok' t.span src hin.1 hin.2
+      rw [e]
+      simp only []
+      split
+      · exact ⟨_, rfl, fun l hl => by rw [List.mem_singleton.mp hl]; exact hin⟩
+      · exact ⟨[], rfl, by simp⟩)
+/-- non-vacuity of `capitalizePersonalPronouns_spans_wf_any_order`: tokens of the Markdown parser's shape (a zero-width `ParagraphBreak` at offset 0 AFTER the words of `i ate 9.`) are `InText`, not in text order, and the rule fires -/
+example : InText ['i', ' ', 'a', 't', 'e', ' ', '9', '.']
+      [⟨⟨0, 1⟩, .word⟩, ⟨⟨1, 2⟩, .space 1⟩, ⟨⟨2, 5⟩, .word⟩, ⟨⟨5, 6⟩, .space 1⟩, ⟨⟨6, 7⟩, .number 10 none⟩, ⟨⟨7, 8⟩, .punct .Period⟩, ⟨⟨0, 0⟩, .paragraphBreak⟩] ∧
+    ruleCapitalizePersonalPronouns (env0) ['i', ' ', 'a', 't', 'e', ' ', '9', '.']
+      [⟨⟨0, 1⟩, .word⟩, ⟨⟨1, 2⟩, .space 1⟩, ⟨⟨2, 5⟩, .word⟩, ⟨⟨5, 6⟩, .space 1⟩, ⟨⟨6, 7⟩, .number 10 none⟩, ⟨⟨7, 8⟩, .punct .Period⟩, ⟨⟨0, 0⟩, .paragraphBreak⟩] =
+    .ok [⟨⟨0, 1⟩, [.replaceWith ['I']], 22, 0⟩] := ⟨by unfold InText TokIn; decide, by decide⟩
+
+/-- the same for WordPressDotcom -/
+theorem wordPressDotcom_spans_wf_any_order (env : Env) (src : List Char) (toks : List Tok) (h : InText src toks) :
+    RunsWF (ruleWordPressDotcom env) src toks :=
+  perTok_ok _ _ src toks (fun t ht => by
+    have hin := h t ht
+    simp only [wordPressTok]
+    split
+    · exact ⟨[], rfl, by simp⟩
+    · obtain ⟨cs, e⟩ := getContent_ok' t.span src hin.1 hin.2
+      rw [e]
+      simp only []
+      split
+      · exact ⟨_, rfl, fun l hl => by rw [List.mem_singleton.mp hl]; exact hin⟩
+      · exact ⟨[], rfl, by simp⟩)
+/-- non-vacuity of `wordPressDotcom_spans_wf_any_order`: tokens of the Markdown parser's shape (a zero-width `ParagraphBreak` at offset 0 AFTER the words of `wordpress.com`) are `InText`, not in text order, and the rule fires -/
+example : InText ['w', 'o', 'r', 'd', 'p', 'r', 'e', 's', 's', '.', 'c', 'o', 'm']
+      [⟨⟨0, 13⟩, .hostname⟩, ⟨⟨0, 0⟩, .paragraphBreak⟩] ∧
+    ruleWordPressDotcom (env0) ['w', 'o', 'r', 'd', 'p', 'r', 'e', 's', 's', '.', 'c', 'o', 'm']
+      [⟨⟨0, 13⟩, .hostname⟩, ⟨⟨0, 0⟩, .paragraphBreak⟩] =
+    .ok [⟨⟨0, 13⟩, [.replaceWith ['W', 'o', 'r', 'd', 'P', 'r', 'e', 's', 's', '.', 'c', 'o', 'm']], 24, 0⟩] := ⟨by unfold InText TokIn; decide, by decide⟩
+
+/-- **LinkingVerbs in any order**: its loop over the chunk only remembers the last word token -/
+theorem linkingVerbs_spans_wf_any_order (env : Env) (src : List Char) (toks : List Tok) (h : InText src toks) :
+    RunsWF (ruleLinkingVerbs env) src toks :=
+  overPieces_okh inText_hyp _ _ src toks h (fun piece hp => by
+    have go : ∀ (ts : List Tok), InText src ts → ∀ prev : Option Tok,
+        ∃ ls, linkingGo env src prev ts = .ok ls ∧ ∀ l ∈ ls, LintOK src.length l := by
+      intro ts
+      induction ts with
+      | nil => intro _ _; exact ⟨[], rfl, by simp⟩
+      | cons t ts ih =>
+        intro hts prev
+        have ht := hts t (by simp)
+        obtain ⟨r, er, hr⟩ := ih (fun u hu => hts u (List.mem_cons_of_mem _ hu)) (if t.kind.isWord = true then some t else prev)
+        have hat : ∃ l, linkingAt env src prev t = .ok l ∧ ∀ x ∈ l, LintOK src.length x := by
+          simp only [linkingAt]
+          split
+          · cases prev with
+            | none => exact ⟨[], rfl, by simp⟩
+            | some p =>
+              simp only []
+              split
+              · obtain ⟨cs, e⟩ := getContent_ok' t.span src ht.1 ht.2
+                rw [e]
+                exact ⟨_, rfl, fun l hl => by rw [List.mem_singleton.mp hl]; exact ht⟩
+              · exact ⟨[], rfl, by simp⟩
+          · exact ⟨[], rfl, by simp⟩
+        obtain ⟨l, el, hl⟩ := hat
+        refine ⟨l ++ r, by simp only [linkingGo, el, er], ?_⟩
+        intro x hx
+        rcases List.mem_append.mp hx with hx | hx
+        · exact hl x hx
+        · exact hr x hx
+    exact go piece hp none)
+/-- non-vacuity of `linkingVerbs_spans_wf_any_order`: tokens of the Markdown parser's shape (a zero-width `ParagraphBreak` at offset 0 AFTER the words of `quick is`) are `InText`, not in text order, and the rule fires -/
+example : InText ['q', 'u', 'i', 'c', 'k', ' ', 'i', 's']
+      [⟨⟨0, 5⟩, .word⟩, ⟨⟨5, 6⟩, .space 1⟩, ⟨⟨6, 8⟩, .word⟩, ⟨⟨0, 0⟩, .paragraphBreak⟩] ∧
+    ruleLinkingVerbs ({ env0 with wordFlags := fun w => if w == ['q', 'u', 'i', 'c', 'k'] then 32768 else if w == ['i', 's'] then 2048 else 0 }) ['q', 'u', 'i', 'c', 'k', ' ', 'i', 's']
+      [⟨⟨0, 5⟩, .word⟩, ⟨⟨5, 6⟩, .space 1⟩, ⟨⟨6, 8⟩, .word⟩, ⟨⟨0, 0⟩, .paragraphBreak⟩] =
+    .ok [⟨⟨6, 8⟩, [], 25, 0⟩] := ⟨by unfold InText TokIn; decide, by decide⟩
 /-! ## the rules that index the whole document -/
 
 /-- `Span::new(space.start, comma.end)`, `toks.1.unwrap()`, `get_content(..).first().unwrap()` -/
 theorem commaFixes_spans_wf (env : Env) (src : List Char) (toks : List Tok) (h : Tiles toks 0 src.length) :
     RunsWF (ruleCommaFixes env) src toks :=
   walkE_ok _ _ (fun pre suf ho => commaAt_ok src pre suf ho) toks [] (ord_of_tiles toks _ h)
+/-- non-vacuity of `commaFixes_spans_wf`: the tokens of `foo ,bar` tile the text and the rule fires -/
+example : Tiles [⟨⟨0, 3⟩, .word⟩, ⟨⟨3, 4⟩, .space 1⟩, ⟨⟨4, 5⟩, .punct .Comma⟩, ⟨⟨5, 8⟩, .word⟩] 0 (['f', 'o', 'o', ' ', ',', 'b', 'a', 'r']).length ∧
+    ruleCommaFixes (env0) ['f', 'o', 'o', ' ', ',', 'b', 'a', 'r']
+      [⟨⟨0, 3⟩, .word⟩, ⟨⟨3, 4⟩, .space 1⟩, ⟨⟨4, 5⟩, .punct .Comma⟩, ⟨⟨5, 8⟩, .word⟩] =
+    .ok [⟨⟨3, 5⟩, [.replaceWith [',', ' ']], 26, 5⟩] := by decide
 
 /-- the text order is needed: a blank positioned AFTER its comma → `Span::new(6, 3)` -/
 example : ruleCommaFixes env0 ['a', 'b', ',', 'c', 'd', 'e', ' ']
@@ -91,15 +213,30 @@ example : ruleCommaFixes env0 ['a', 'b', ',', 'c', 'd', 'e', ' ']
 theorem mergeWords_spans_wf (env : Env) (src : List Char) (toks : List Tok) (h : Tiles toks 0 src.length) :
     RunsWF (ruleMergeWords env) src toks :=
   walkE_ok _ _ (fun pre suf ho => mergeAt_ok env src pre suf ho) toks [] (ord_of_tiles toks _ h)
+/-- non-vacuity of `mergeWords_spans_wf`: the tokens of `The refore` tile the text and the rule fires -/
+example : Tiles [⟨⟨0, 3⟩, .word⟩, ⟨⟨3, 4⟩, .space 1⟩, ⟨⟨4, 10⟩, .word⟩] 0 (['T', 'h', 'e', ' ', 'r', 'e', 'f', 'o', 'r', 'e']).length ∧
+    ruleMergeWords ({ env0 with wordFlags := fun w => if w == ['T', 'h', 'e', 'r', 'e', 'f', 'o', 'r', 'e'] then 524288 else 0 }) ['T', 'h', 'e', ' ', 'r', 'e', 'f', 'o', 'r', 'e']
+      [⟨⟨0, 3⟩, .word⟩, ⟨⟨3, 4⟩, .space 1⟩, ⟨⟨4, 10⟩, .word⟩] =
+    .ok [⟨⟨0, 10⟩, [.replaceWith ['T', 'h', 'e', 'r', 'e', 'f', 'o', 'r', 'e']], 27, 0⟩] := by decide
 
 theorem adjectiveOfA_spans_wf (env : Env) (src : List Char) (toks : List Tok) (h : Tiles toks 0 src.length) :
     RunsWF (ruleAdjectiveOfA env) src toks :=
   walkE_ok _ _ (fun pre suf ho => adjOfAAt_ok env src pre suf ho) toks [] (ord_of_tiles toks _ h)
+/-- non-vacuity of `adjectiveOfA_spans_wf`: the tokens of `big  of a` tile the text and the rule fires -/
+example : Tiles [⟨⟨0, 3⟩, .word⟩, ⟨⟨3, 5⟩, .space 2⟩, ⟨⟨5, 7⟩, .word⟩, ⟨⟨7, 8⟩, .space 1⟩, ⟨⟨8, 9⟩, .word⟩] 0 (['b', 'i', 'g', ' ', ' ', 'o', 'f', ' ', 'a']).length ∧
+    ruleAdjectiveOfA ({ env0 with wordFlags := fun w => if w == ['b', 'i', 'g'] then 32776 else 0 }) ['b', 'i', 'g', ' ', ' ', 'o', 'f', ' ', 'a']
+      [⟨⟨0, 3⟩, .word⟩, ⟨⟨3, 5⟩, .space 2⟩, ⟨⟨5, 7⟩, .word⟩, ⟨⟨7, 8⟩, .space 1⟩, ⟨⟨8, 9⟩, .word⟩] =
+    .ok [⟨⟨0, 9⟩, [.replaceWith ['b', 'i', 'g', ' ', ' ', 'a'], .replaceWith ['b', 'i', 'g', ' ', 'a']], 31, 0⟩] := by decide
 
 /-- `Span::new(prep.start, word.end)`, up to three times per window (`-ed` has two stems) -/
 theorem inflectedVerbAfterTo_spans_wf (env : Env) (src : List Char) (toks : List Tok) (h : Tiles toks 0 src.length) :
     RunsWF (ruleInflectedVerbAfterTo env) src toks :=
   walkE_ok _ _ (fun pre suf ho => inflectedAt_ok env src pre suf ho) toks [] (ord_of_tiles toks _ h)
+/-- non-vacuity of `inflectedVerbAfterTo_spans_wf`: the tokens of `to agreed` tile the text and the rule fires -/
+example : Tiles [⟨⟨0, 2⟩, .word⟩, ⟨⟨2, 3⟩, .space 1⟩, ⟨⟨3, 9⟩, .word⟩] 0 (['t', 'o', ' ', 'a', 'g', 'r', 'e', 'e', 'd']).length ∧
+    ruleInflectedVerbAfterTo ({ env0 with wordFlags := fun w => if w == ['t', 'o'] then 32769 else if w == ['a', 'g', 'r', 'e', 'e'] then 32896 else if w == ['a', 'g', 'r', 'e'] then 32896 else 0 }) ['t', 'o', ' ', 'a', 'g', 'r', 'e', 'e', 'd']
+      [⟨⟨0, 2⟩, .word⟩, ⟨⟨2, 3⟩, .space 1⟩, ⟨⟨3, 9⟩, .word⟩] =
+    .ok [⟨⟨0, 9⟩, [.replaceWith ['t', 'o', ' ', 'a', 'g', 'r', 'e']], 34, 0⟩, ⟨⟨0, 9⟩, [.replaceWith ['t', 'o', ' ', 'a', 'g', 'r', 'e', 'e']], 34, 0⟩] := by decide
 
 /-! ## the rules around a pattern tree -/
 
@@ -108,10 +245,25 @@ conjunction for the dictionary -/
 theorem oxfordComma_spans_wf_any_order (env : Env) (src : List Char) (toks : List Tok) (h : InText src toks)
     (hc : ConjOK env src toks) : RunsWF (ruleOxfordComma env) src toks :=
   overPieces_okh (inTextConj_hyp env) _ _ src toks ⟨h, hc⟩ (fun piece hp => oxford_ok env src piece hp)
+/-- non-vacuity of `oxfordComma_spans_wf_any_order`: tokens of the Markdown parser's shape (a zero-width `ParagraphBreak` at offset 0 AFTER the words of `so, cat and dog`) are `InText`, not in text order, and the rule fires -/
+example : InText ['s', 'o', ',', ' ', 'c', 'a', 't', ' ', 'a', 'n', 'd', ' ', 'd', 'o', 'g']
+      [⟨⟨0, 2⟩, .word⟩, ⟨⟨2, 3⟩, .punct .Comma⟩, ⟨⟨3, 4⟩, .space 1⟩, ⟨⟨4, 7⟩, .word⟩, ⟨⟨7, 8⟩, .space 1⟩, ⟨⟨8, 11⟩, .word⟩, ⟨⟨11, 12⟩, .space 1⟩, ⟨⟨12, 15⟩, .word⟩, ⟨⟨0, 0⟩, .paragraphBreak⟩] ∧
+    ConjOK ({ env0 with wordFlags := fun w => if w == ['s', 'o'] then 32834 else if w == ['c', 'a', 't'] then 32832 else if w == ['d', 'o', 'g'] then 32832 else if w == ['a', 'n', 'd'] then 32770 else 0 }) ['s', 'o', ',', ' ', 'c', 'a', 't', ' ', 'a', 'n', 'd', ' ', 'd', 'o', 'g']
+      [⟨⟨0, 2⟩, .word⟩, ⟨⟨2, 3⟩, .punct .Comma⟩, ⟨⟨3, 4⟩, .space 1⟩, ⟨⟨4, 7⟩, .word⟩, ⟨⟨7, 8⟩, .space 1⟩, ⟨⟨8, 11⟩, .word⟩, ⟨⟨11, 12⟩, .space 1⟩, ⟨⟨12, 15⟩, .word⟩, ⟨⟨0, 0⟩, .paragraphBreak⟩] ∧
+    ruleOxfordComma ({ env0 with wordFlags := fun w => if w == ['s', 'o'] then 32834 else if w == ['c', 'a', 't'] then 32832 else if w == ['d', 'o', 'g'] then 32832 else if w == ['a', 'n', 'd'] then 32770 else 0 }) ['s', 'o', ',', ' ', 'c', 'a', 't', ' ', 'a', 'n', 'd', ' ', 'd', 'o', 'g']
+      [⟨⟨0, 2⟩, .word⟩, ⟨⟨2, 3⟩, .punct .Comma⟩, ⟨⟨3, 4⟩, .space 1⟩, ⟨⟨4, 7⟩, .word⟩, ⟨⟨7, 8⟩, .space 1⟩, ⟨⟨8, 11⟩, .word⟩, ⟨⟨11, 12⟩, .space 1⟩, ⟨⟨12, 15⟩, .word⟩, ⟨⟨0, 0⟩, .paragraphBreak⟩] =
+    .ok [⟨⟨4, 7⟩, [.insertAfter [',']], 29, 0⟩] := ⟨by unfold InText TokIn; decide, by unfold ConjOK; decide, by decide⟩
 
 theorem oxfordComma_spans_wf (env : Env) (src : List Char) (toks : List Tok) (h : Tiles toks 0 src.length)
     (hc : ConjOK env src toks) : RunsWF (ruleOxfordComma env) src toks :=
   oxfordComma_spans_wf_any_order env src toks (inText_of_tiles src toks h) hc
+/-- non-vacuity of `oxfordComma_spans_wf`: the tokens of `so, cat and dog` tile the text, `ConjOK` holds (`and` is a conjunction for this dictionary) and the rule fires -/
+example : Tiles [⟨⟨0, 2⟩, .word⟩, ⟨⟨2, 3⟩, .punct .Comma⟩, ⟨⟨3, 4⟩, .space 1⟩, ⟨⟨4, 7⟩, .word⟩, ⟨⟨7, 8⟩, .space 1⟩, ⟨⟨8, 11⟩, .word⟩, ⟨⟨11, 12⟩, .space 1⟩, ⟨⟨12, 15⟩, .word⟩] 0 (['s', 'o', ',', ' ', 'c', 'a', 't', ' ', 'a', 'n', 'd', ' ', 'd', 'o', 'g']).length ∧
+    ConjOK ({ env0 with wordFlags := fun w => if w == ['s', 'o'] then 32834 else if w == ['c', 'a', 't'] then 32832 else if w == ['d', 'o', 'g'] then 32832 else if w == ['a', 'n', 'd'] then 32770 else 0 }) ['s', 'o', ',', ' ', 'c', 'a', 't', ' ', 'a', 'n', 'd', ' ', 'd', 'o', 'g']
+      [⟨⟨0, 2⟩, .word⟩, ⟨⟨2, 3⟩, .punct .Comma⟩, ⟨⟨3, 4⟩, .space 1⟩, ⟨⟨4, 7⟩, .word⟩, ⟨⟨7, 8⟩, .space 1⟩, ⟨⟨8, 11⟩, .word⟩, ⟨⟨11, 12⟩, .space 1⟩, ⟨⟨12, 15⟩, .word⟩] ∧
+    ruleOxfordComma ({ env0 with wordFlags := fun w => if w == ['s', 'o'] then 32834 else if w == ['c', 'a', 't'] then 32832 else if w == ['d', 'o', 'g'] then 32832 else if w == ['a', 'n', 'd'] then 32770 else 0 }) ['s', 'o', ',', ' ', 'c', 'a', 't', ' ', 'a', 'n', 'd', ' ', 'd', 'o', 'g']
+      [⟨⟨0, 2⟩, .word⟩, ⟨⟨2, 3⟩, .punct .Comma⟩, ⟨⟨3, 4⟩, .space 1⟩, ⟨⟨4, 7⟩, .word⟩, ⟨⟨7, 8⟩, .space 1⟩, ⟨⟨8, 11⟩, .word⟩, ⟨⟨11, 12⟩, .space 1⟩, ⟨⟨12, 15⟩, .word⟩] =
+    .ok [⟨⟨4, 7⟩, [.insertAfter [',']], 29, 0⟩] := ⟨by decide, by unfold ConjOK; decide, by decide⟩
 
 /-- a dictionary for which `so` is a nominal and a conjunction, `cat` and `dog` nominals, and `and` is NOT a
 conjunction -/
@@ -133,25 +285,58 @@ example : ruleOxfordComma envNoConj soCatSrc soCatToks = .error .underflow := by
 theorem noOxfordComma_spans_wf_any_order (env : Env) (src : List Char) (toks : List Tok) (h : InText src toks) :
     RunsWF (ruleNoOxfordComma env) src toks :=
   overPieces_okh inText_hyp _ _ src toks h (fun piece hp => noOxford_ok env src piece hp)
+/-- non-vacuity of `noOxfordComma_spans_wf_any_order`: tokens of the Markdown parser's shape (a zero-width `ParagraphBreak` at offset 0 AFTER the words of `cat, dog, and x`) are `InText`, not in text order, and the rule fires -/
+example : InText ['c', 'a', 't', ',', ' ', 'd', 'o', 'g', ',', ' ', 'a', 'n', 'd', ' ', 'x']
+      [⟨⟨0, 3⟩, .word⟩, ⟨⟨3, 4⟩, .punct .Comma⟩, ⟨⟨4, 5⟩, .space 1⟩, ⟨⟨5, 8⟩, .word⟩, ⟨⟨8, 9⟩, .punct .Comma⟩, ⟨⟨9, 10⟩, .space 1⟩, ⟨⟨10, 13⟩, .word⟩, ⟨⟨13, 14⟩, .space 1⟩, ⟨⟨14, 15⟩, .word⟩, ⟨⟨0, 0⟩, .paragraphBreak⟩] ∧
+    ruleNoOxfordComma ({ env0 with wordFlags := fun w => if w == ['c', 'a', 't'] then 32832 else if w == ['d', 'o', 'g'] then 32832 else 0 }) ['c', 'a', 't', ',', ' ', 'd', 'o', 'g', ',', ' ', 'a', 'n', 'd', ' ', 'x']
+      [⟨⟨0, 3⟩, .word⟩, ⟨⟨3, 4⟩, .punct .Comma⟩, ⟨⟨4, 5⟩, .space 1⟩, ⟨⟨5, 8⟩, .word⟩, ⟨⟨8, 9⟩, .punct .Comma⟩, ⟨⟨9, 10⟩, .space 1⟩, ⟨⟨10, 13⟩, .word⟩, ⟨⟨13, 14⟩, .space 1⟩, ⟨⟨14, 15⟩, .word⟩, ⟨⟨0, 0⟩, .paragraphBreak⟩] =
+    .ok [⟨⟨8, 9⟩, [.remove], 30, 0⟩] := ⟨by unfold InText TokIn; decide, by decide⟩
 
 theorem noOxfordComma_spans_wf (env : Env) (src : List Char) (toks : List Tok) (h : Tiles toks 0 src.length) :
     RunsWF (ruleNoOxfordComma env) src toks := noOxfordComma_spans_wf_any_order env src toks (inText_of_tiles src toks h)
+/-- non-vacuity of `noOxfordComma_spans_wf`: the tokens of `cat, dog, and x` tile the text and the rule fires -/
+example : Tiles [⟨⟨0, 3⟩, .word⟩, ⟨⟨3, 4⟩, .punct .Comma⟩, ⟨⟨4, 5⟩, .space 1⟩, ⟨⟨5, 8⟩, .word⟩, ⟨⟨8, 9⟩, .punct .Comma⟩, ⟨⟨9, 10⟩, .space 1⟩, ⟨⟨10, 13⟩, .word⟩, ⟨⟨13, 14⟩, .space 1⟩, ⟨⟨14, 15⟩, .word⟩] 0 (['c', 'a', 't', ',', ' ', 'd', 'o', 'g', ',', ' ', 'a', 'n', 'd', ' ', 'x']).length ∧
+    ruleNoOxfordComma ({ env0 with wordFlags := fun w => if w == ['c', 'a', 't'] then 32832 else if w == ['d', 'o', 'g'] then 32832 else 0 }) ['c', 'a', 't', ',', ' ', 'd', 'o', 'g', ',', ' ', 'a', 'n', 'd', ' ', 'x']
+      [⟨⟨0, 3⟩, .word⟩, ⟨⟨3, 4⟩, .punct .Comma⟩, ⟨⟨4, 5⟩, .space 1⟩, ⟨⟨5, 8⟩, .word⟩, ⟨⟨8, 9⟩, .punct .Comma⟩, ⟨⟨9, 10⟩, .space 1⟩, ⟨⟨10, 13⟩, .word⟩, ⟨⟨13, 14⟩, .space 1⟩, ⟨⟨14, 15⟩, .word⟩] =
+    .ok [⟨⟨8, 9⟩, [.remove], 30, 0⟩] := by decide
 
 theorem widelyAccepted_spans_wf_any_order (env : Env) (src : List Char) (toks : List Tok) (h : InText src toks) :
     RunsWF (ruleWidelyAccepted env) src toks :=
   overPieces_okh inText_hyp _ _ src toks h (fun piece hp => widely_ok env src piece hp)
+/-- non-vacuity of `widelyAccepted_spans_wf_any_order`: tokens of the Markdown parser's shape (a zero-width `ParagraphBreak` at offset 0 AFTER the words of `Wide used`) are `InText`, not in text order, and the rule fires -/
+example : InText ['W', 'i', 'd', 'e', ' ', 'u', 's', 'e', 'd']
+      [⟨⟨0, 4⟩, .word⟩, ⟨⟨4, 5⟩, .space 1⟩, ⟨⟨5, 9⟩, .word⟩, ⟨⟨0, 0⟩, .paragraphBreak⟩] ∧
+    ruleWidelyAccepted (env0) ['W', 'i', 'd', 'e', ' ', 'u', 's', 'e', 'd']
+      [⟨⟨0, 4⟩, .word⟩, ⟨⟨4, 5⟩, .space 1⟩, ⟨⟨5, 9⟩, .word⟩, ⟨⟨0, 0⟩, .paragraphBreak⟩] =
+    .ok [⟨⟨0, 4⟩, [.replaceWith ['W', 'i', 'd', 'e', 'l', 'y']], 32, 0⟩] := ⟨by unfold InText TokIn; decide, by decide⟩
 
 theorem widelyAccepted_spans_wf_r2 (env : Env) (src : List Char) (toks : List Tok) (h : Tiles toks 0 src.length) :
     RunsWF (ruleWidelyAccepted env) src toks := widelyAccepted_spans_wf_any_order env src toks (inText_of_tiles src toks h)
+/-- non-vacuity of `widelyAccepted_spans_wf_r2`: the tokens of `Wide used` tile the text and the rule fires -/
+example : Tiles [⟨⟨0, 4⟩, .word⟩, ⟨⟨4, 5⟩, .space 1⟩, ⟨⟨5, 9⟩, .word⟩] 0 (['W', 'i', 'd', 'e', ' ', 'u', 's', 'e', 'd']).length ∧
+    ruleWidelyAccepted (env0) ['W', 'i', 'd', 'e', ' ', 'u', 's', 'e', 'd']
+      [⟨⟨0, 4⟩, .word⟩, ⟨⟨4, 5⟩, .space 1⟩, ⟨⟨5, 9⟩, .word⟩] =
+    .ok [⟨⟨0, 4⟩, [.replaceWith ['W', 'i', 'd', 'e', 'l', 'y']], 32, 0⟩] := by decide
 
 /-- TheHowWhy slices `matched_tokens[0..2]`: every alternative of its pattern matches at least three tokens
 (`theHowWhyPat_three`) -/
 theorem theHowWhy_spans_wf_any_order (env : Env) (src : List Char) (toks : List Tok) (h : InText src toks) :
     RunsWF (ruleTheHowWhy env) src toks :=
   overPieces_okh inText_hyp _ _ src toks h (fun piece hp => theHowWhy_ok env src piece hp)
+/-- non-vacuity of `theHowWhy_spans_wf_any_order`: tokens of the Markdown parser's shape (a zero-width `ParagraphBreak` at offset 0 AFTER the words of `the  how it`) are `InText`, not in text order, and the rule fires -/
+example : InText ['t', 'h', 'e', ' ', ' ', 'h', 'o', 'w', ' ', 'i', 't']
+      [⟨⟨0, 3⟩, .word⟩, ⟨⟨3, 5⟩, .space 2⟩, ⟨⟨5, 8⟩, .word⟩, ⟨⟨8, 9⟩, .space 1⟩, ⟨⟨9, 11⟩, .word⟩, ⟨⟨0, 0⟩, .paragraphBreak⟩] ∧
+    ruleTheHowWhy (env0) ['t', 'h', 'e', ' ', ' ', 'h', 'o', 'w', ' ', 'i', 't']
+      [⟨⟨0, 3⟩, .word⟩, ⟨⟨3, 5⟩, .space 2⟩, ⟨⟨5, 8⟩, .word⟩, ⟨⟨8, 9⟩, .space 1⟩, ⟨⟨9, 11⟩, .word⟩, ⟨⟨0, 0⟩, .paragraphBreak⟩] =
+    .ok [⟨⟨0, 5⟩, [.remove], 33, 0⟩] := ⟨by unfold InText TokIn; decide, by decide⟩
 
 theorem theHowWhy_spans_wf_r2 (env : Env) (src : List Char) (toks : List Tok) (h : Tiles toks 0 src.length) :
     RunsWF (ruleTheHowWhy env) src toks := theHowWhy_spans_wf_any_order env src toks (inText_of_tiles src toks h)
+/-- non-vacuity of `theHowWhy_spans_wf_r2`: the tokens of `the  how it` tile the text and the rule fires -/
+example : Tiles [⟨⟨0, 3⟩, .word⟩, ⟨⟨3, 5⟩, .space 2⟩, ⟨⟨5, 8⟩, .word⟩, ⟨⟨8, 9⟩, .space 1⟩, ⟨⟨9, 11⟩, .word⟩] 0 (['t', 'h', 'e', ' ', ' ', 'h', 'o', 'w', ' ', 'i', 't']).length ∧
+    ruleTheHowWhy (env0) ['t', 'h', 'e', ' ', ' ', 'h', 'o', 'w', ' ', 'i', 't']
+      [⟨⟨0, 3⟩, .word⟩, ⟨⟨3, 5⟩, .space 2⟩, ⟨⟨5, 8⟩, .word⟩, ⟨⟨8, 9⟩, .space 1⟩, ⟨⟨9, 11⟩, .word⟩] =
+    .ok [⟨⟨0, 5⟩, [.remove], 33, 0⟩] := by decide
 
 /-- `match_to_lint` alone is NOT total: on a one-token slice (which the pattern never hands over) it panics -/
 example : theHowWhyMatch env0 ['t', 'h', 'e'] [⟨⟨0, 3⟩, .word⟩] = .error .sliceOOB := by decide
@@ -183,6 +368,60 @@ theorem widelyAccepted_suggestions_local (env : Env) (src : List Char) (toks : L
     SuggestionsLocal (ruleWidelyAccepted env) src toks := suggestions_local _ src toks (widelyAccepted_spans_wf_any_order env src toks h)
 theorem theHowWhy_suggestions_local (env : Env) (src : List Char) (toks : List Tok) (h : InText src toks) :
     SuggestionsLocal (ruleTheHowWhy env) src toks := suggestions_local _ src toks (theHowWhy_spans_wf_any_order env src toks h)
+
+/-! ## all thirteen, from the characters of a document -/
+
+/-- **All thirteen, on documents**: whichever rule the driver's table `ruleByName2` dispatches to, run on the tokens of ANY
+plain-English document (any class table, any in-bounds url / e-mail / hostname lexer, any `Env`), returns — no panic —
+and every lint has `start ≤ end ≤ text length`: the hypothesis `Tiles` of the per-rule theorems discharged by
+`on_documents`. OxfordComma keeps its monitored premise `ConjOK` (on the document's tokens); no other rule has one. -/
+theorem thirteen_rules_on_documents (cls : Cls) (ext : Ext) (src : List Char) (hext : ExtOK ext src.length)
+    (env : Env) (name : String) (r : Env → PieceRule) (hr : ruleByName2 name = some r)
+    (hc : name = "OxfordComma" → ∀ toks, document cls ext src = .ok toks → ConjOK env src toks) :
+    ∃ ls, docRule cls ext (r env) src = .ok ls ∧ ∀ l ∈ ls, l.span.start ≤ l.span.stop ∧ l.span.stop ≤ src.length := by
+  obtain ⟨toks, e, hT, _⟩ := on_documents cls ext src hext
+  simp only [docRule, e]
+  unfold ruleByName2 at hr
+  split at hr <;> cases hr
+  · exact spelledNumbers_spans_wf env src toks hT
+  · exact capitalizePersonalPronouns_spans_wf env src toks hT
+  · exact avoidCurses_spans_wf env src toks hT
+  · exact wordPressDotcom_spans_wf env src toks hT
+  · exact linkingVerbs_spans_wf env src toks hT
+  · exact commaFixes_spans_wf env src toks hT
+  · exact mergeWords_spans_wf env src toks hT
+  · exact adjectiveOfA_spans_wf env src toks hT
+  · exact oxfordComma_spans_wf env src toks hT (hc rfl toks e)
+  · exact noOxfordComma_spans_wf env src toks hT
+  · exact widelyAccepted_spans_wf_r2 env src toks hT
+  · exact theHowWhy_spans_wf_r2 env src toks hT
+  · exact inflectedVerbAfterTo_spans_wf env src toks hT
+
+/-- non-vacuity of `thirteen_rules_on_documents`: at `foo ,bar` for CommaFixes (which fires there: below) … -/
+example : ∃ ls, docRule asciiCls noExt (ruleCommaFixes env0) ['f', 'o', 'o', ' ', ',', 'b', 'a', 'r'] = .ok ls ∧
+    ∀ l ∈ ls, l.span.start ≤ l.span.stop ∧ l.span.stop ≤ 8 :=
+  thirteen_rules_on_documents asciiCls noExt _ (by intro _ _ _ h; cases h) env0 "CommaFixes" _ rfl (fun h => absurd h (by decide))
+
+/-- … and with the premise `ConjOK` met, at `x, y or z` for OxfordComma (`or` a conjunction for the dictionary; the rule
+reports `y`, 3..4, on the document's tokens) -/
+example : (∃ ls, docRule asciiCls noExt (ruleOxfordComma { env0 with wordFlags := fun w =>
+        if w == ['o', 'r'] then 2 + 32768 else if w == ['x'] || w == ['y'] || w == ['z'] then 64 + 32768 else 0 })
+      ['x', ',', ' ', 'y', ' ', 'o', 'r', ' ', 'z'] = .ok ls ∧ ∀ l ∈ ls, l.span.start ≤ l.span.stop ∧ l.span.stop ≤ 9) ∧
+    ruleOxfordComma { env0 with wordFlags := fun w =>
+        if w == ['o', 'r'] then 2 + 32768 else if w == ['x'] || w == ['y'] || w == ['z'] then 64 + 32768 else 0 }
+      ['x', ',', ' ', 'y', ' ', 'o', 'r', ' ', 'z']
+      [⟨⟨0, 1⟩, .word⟩, ⟨⟨1, 2⟩, .punct .Comma⟩, ⟨⟨2, 3⟩, .space 1⟩, ⟨⟨3, 4⟩, .word⟩, ⟨⟨4, 5⟩, .space 1⟩, ⟨⟨5, 7⟩, .word⟩,
+        ⟨⟨7, 8⟩, .space 1⟩, ⟨⟨8, 9⟩, .word⟩] = .ok [⟨⟨3, 4⟩, [.insertAfter [',']], 29, 0⟩] := by
+  have e : document asciiCls noExt ['x', ',', ' ', 'y', ' ', 'o', 'r', ' ', 'z'] =
+      .ok [⟨⟨0, 1⟩, .word⟩, ⟨⟨1, 2⟩, .punct .Comma⟩, ⟨⟨2, 3⟩, .space 1⟩, ⟨⟨3, 4⟩, .word⟩, ⟨⟨4, 5⟩, .space 1⟩, ⟨⟨5, 7⟩, .word⟩,
+        ⟨⟨7, 8⟩, .space 1⟩, ⟨⟨8, 9⟩, .word⟩] := by decide
+  refine ⟨thirteen_rules_on_documents asciiCls noExt _ (by intro _ _ _ h; cases h) { env0 with wordFlags := fun w =>
+        if w == ['o', 'r'] then 2 + 32768 else if w == ['x'] || w == ['y'] || w == ['z'] then 64 + 32768 else 0 }
+      "OxfordComma" ruleOxfordComma rfl (fun _ toks h => ?_), by decide⟩
+  rw [e] at h
+  cases h
+  unfold ConjOK
+  decide
 
 /-! ## on the tokens of real sentences (non-vacuity; kernel-evaluated) -/
 
@@ -243,5 +482,50 @@ example : docRule asciiCls noExt (ruleTheHowWhy env0) ['t', 'h', 'e', ' ', ' ', 
 /-- `Wide used` keeps its capital: `Widely` -/
 example : docRule asciiCls noExt (ruleWidelyAccepted env0) ['W', 'i', 'd', 'e', ' ', 'u', 's', 'e', 'd'] =
     .ok [⟨⟨0, 4⟩, [.replaceWith ['W', 'i', 'd', 'e', 'l', 'y']], 32, 0⟩] := by decide
+
+/-! ## the generic constructions of `Props/C03c.lean` offer only local edits (w22 audit)
+
+`suggestions_local` is about any `PieceRule`; C03c (MapPhraseLinter, closed compounds, proper nouns, `merge_linters!`)
+is upstream of this file, so the composed statements live here. -/
+
+/-- every suggestion of a `MapPhraseLinter` over a plain tree applies and edits only the flagged span -/
+theorem mapPhrase_suggestions_local (env : Env) (p : RPat) (hp : p.plain = true) (forms : List (List Char))
+    (src : List Char) (toks : List Tok) (h : InText src toks) :
+    SuggestionsLocal (ruleMapPhrase env p forms) src toks :=
+  suggestions_local _ _ _ (mapPhrase_spans_wf env p hp forms src toks h)
+
+/-- … over ANY tree, on tiling tokens with short words and a sound dictionary -/
+theorem mapPhrase_suggestions_local_full (env : Env) (hd : DictOK env) (hc : CanonOK env) (p : RPat)
+    (hw : WordsShort env p) (forms : List (List Char)) (src : List Char) (toks : List Tok)
+    (h : Tiles toks 0 src.length) (hs : ShortWords env src toks) :
+    SuggestionsLocal (ruleMapPhrase env p forms) src toks :=
+  suggestions_local _ _ _ (mapPhrase_spans_wf_full env hd hc p hw forms src toks h hs)
+
+/-- every row of `closed_compounds.rs` -/
+theorem closedCompound_suggestions_local (env : Env) (psrc : List Char) (ptoks : List Tok) (good : List Char)
+    (r : PieceRule) (hr : ruleClosedCompound env psrc ptoks good = some r) (src : List Char) (toks : List Tok)
+    (h : InText src toks) : SuggestionsLocal r src toks :=
+  suggestions_local _ _ _ (closedCompound_spans_wf env psrc ptoks good r hr src toks h)
+
+/-- every entry of `proper_noun_rules.json` -/
+theorem properNoun_suggestions_local (env : Env) (rows : List PNRow) (hrows : ∀ r ∈ rows, IsPhrasePat r.pat)
+    (src : List Char) (toks : List Tok) (h : InText src toks) :
+    SuggestionsLocal (ruleProperNoun env rows) src toks :=
+  suggestions_local _ _ _ (properNoun_spans_wf env rows hrows src toks h)
+
+/-- a `merge_linters!` rule whose children run and point into the text -/
+theorem mergeLinters_suggestions_local (rs : List PieceRule) (src : List Char) (toks : List Tok)
+    (h : ∀ r ∈ rs, RunsWF r src toks) : SuggestionsLocal (mergeLinters rs) src toks :=
+  suggestions_local _ _ _ (mergeLinters_spans_wf rs src toks h)
+
+/-- non-vacuity of `mapPhrase_suggestions_local`, applied: `We In  tact now.` — the one suggestion of the one
+lint (`Intact` for 3..11) applies and yields `We Intact now.` -/
+example : (toSuggestion (.replaceWith ['I', 'n', 't', 'a', 'c', 't'])).apply ⟨3, 11⟩ C01.srcIntact =
+    .ok ['W', 'e', ' ', 'I', 'n', 't', 'a', 'c', 't', ' ', 'n', 'o', 'w', '.'] := by
+  have h := mapPhrase_suggestions_local env0 C12.intactPat (by decide) [['i', 'n', 't', 'a', 'c', 't']]
+    C01.srcIntact C01.toksIntact inText_weIntact _ (by decide : ruleMapPhrase env0 C12.intactPat [['i', 'n', 't', 'a', 'c', 't']]
+      C01.srcIntact C01.toksIntact = .ok [⟨⟨3, 11⟩, [.replaceWith ['I', 'n', 't', 'a', 'c', 't']], 13, 0⟩])
+    _ (List.mem_singleton.mpr rfl) _ (List.mem_singleton.mpr rfl)
+  rw [h]; decide
 
 end Harper.C03
